@@ -90,6 +90,8 @@ func C14(ctx *core.Ctx, r *core.Report) {
 	c14LexerPosInBounds(ctx, r)
 	c14PoolCoversEveryHolder(ctx, r)
 	c14TokenizerSetsAgree(ctx, r)
+	c14StringNeedsInput(ctx, r)
+	c14BelongsToNeedsParent(ctx, r)
 	c14ImportRememberedAsAsked(ctx, r)
 	c14SingleDefaultGuard(ctx, r)
 	c14AnyRejectedByDeviationCheck(ctx, r)
